@@ -1,7 +1,9 @@
 (* C07: the SMB command structures whose Unmarshal the guard analysis (Model/SmbSafe.v) cannot prove
    total on the current tree.  This is a coverage limit of the translator / the description language
    (statements go2coq reports as opaque, nested types the interpreter does not model), NOT a list of
-   defects: these structures are driven by the Go-side malformed stream only.  A structure that is
+   defects: these structures are driven by the Go-side malformed stream only.  (OpenAndxRequest is translated; its
+   Reserved [2]USHORT is read as 4 bytes behind a 2-byte guard, inside the capacity of the parameter stream: no panic
+   is reachable, the analysis cannot know that, and the read past the length is recorded as a C04 static finding.)  A structure that is
    provable today and stops being so is a broken obligation (Properties/C07.v: C07_smb_commands_cover). *)
 From Coq Require Import List String.
 Import ListNotations.
